@@ -184,7 +184,7 @@ func execTime(c *child.Ctx, k timeCase, cj []byte, sigPrefix string) {
 				}
 				close(done)
 			}()
-			waitOrHang(done, caseWatchdog, "file handler did not close the message channel")
+			waitOrHangGone(done, caseWatchdog, "file handler did not close the message channel")
 			for i := range msgs {
 				gots = append(gots, got{msg: &msgs[i]})
 			}
@@ -302,7 +302,7 @@ func streamThrough(h *handler.Handler, input []byte) []handler.Message {
 		}
 		close(done)
 	}()
-	waitOrHang(done, caseWatchdog, "stream handler did not finish")
+	waitOrHangGone(done, caseWatchdog, "stream handler did not finish")
 	return msgs
 }
 
